@@ -40,7 +40,46 @@ def case_kw(rng, row):
     return kw
 
 
-PLAN = e1prop.Plan('C03', ROWS, cfgs=('v6', 'v7', 'v5'), classify=classify, case_kw=case_kw, tweak_case=tweak)
+def shape_list(row, w, entropy):
+    """register lists a uniform 16-bit draw almost never produces: single register, two registers, everything, only / also the base, only / also
+    PC or LR or SP, and the empty list (UNPREDICTABLE: totality only)"""
+    if 'r' not in row.fields:
+        return w
+    import random
+    rng = random.Random(entropy ^ 0x5EED)
+    if rng.random() >= 0.4:
+        return w
+    poss = row.fields['r']
+    nb = len(poss)
+    f = row.extract(w)
+    base = f.get('n')
+    kind = rng.randrange(8)
+    if kind == 0:
+        v = 1 << rng.randrange(nb)
+    elif kind == 1:
+        v = (1 << rng.randrange(nb)) | (1 << rng.randrange(nb))
+    elif kind == 2:
+        v = (1 << nb) - 1
+    elif kind == 3 and isinstance(base, int) and base < nb:
+        v = 1 << base
+    elif kind == 4 and isinstance(base, int) and base < nb:
+        v = (1 << base) | (1 << rng.randrange(nb))
+    elif kind == 5:
+        v = (1 << (nb - 1)) | (rng.getrandbits(nb) if rng.random() < 0.5 else 0)
+    elif kind == 6:
+        v = rng.getrandbits(nb) & rng.getrandbits(nb) & rng.getrandbits(nb)         # sparse (may be empty)
+    else:
+        v = ((1 << nb) - 1) ^ (1 << rng.randrange(nb))
+    for j, p_ in enumerate(reversed(poss)):
+        w = (w & ~(1 << p_)) | (((v >> j) & 1) << p_)
+    if kind in (0, 3, 5) and rng.random() < 0.5:
+        for hi in ('P', 'M'):                  # the separate PC / LR bits of the 16-bit and T2 encodings
+            if hi in row.fields and len(row.fields[hi]) == 1:
+                w = (w & ~(1 << row.fields[hi][0])) | (rng.getrandbits(1) << row.fields[hi][0])
+    return w
+
+
+PLAN = e1prop.Plan('C03', ROWS, cfgs=('v6', 'v7', 'v5'), classify=classify, case_kw=case_kw, tweak_case=tweak, tweak_word=shape_list)
 
 
 PAIRS = [  # (store row, load row, base: 13 or None (random Rn), thumb, list mask)
